@@ -448,7 +448,8 @@ pub fn run(a: &Args) {
                 let (endv, _) = cx.msg(id, &data);
                 cx.run(id, "sync", &data, vec![], usize::MAX, false, endv, "reference: blocking, whole");
                 let n = bytes.len();
-                if n <= nmax && n >= 1 {
+                // the 512 tag-sweep messages are not chunked exhaustively (uniform / random chunkings below)
+                if n <= nmax && n >= 1 && !id.starts_with("tag") {
                     let mut idx = 0usize;
                     let mut rr = Rng::new(seed ^ n as u64);
                     let mut scripts: Vec<Vec<Step>> = vec![];
